@@ -34,4 +34,43 @@ theorem project_denotes (A fm : FM) (hA : SortedFwd A) (hpl : 0 < A.parentLength
   simp only [Option.map_some, compose, lookup]
   have : ¬ (p < 0) := by omega
   simp [this, hIk]
+/-- degapping the own-row slice: reading the aligned row at the columns of the projected feature gives
+back exactly the positions of the sequence feature, in order (lost stays lost) -/
+theorem project_readback (A fm : FM) (hA : SortedFwd A) (hpl : 0 < A.parentLength)
+    (hfm : ∀ x ∈ fm.spans, x.idxIn A.parentLength)
+    (hcov : ∀ (j : Nat) (p : Int), (cover fm)[j]? = some (some p) → ∃ k : Nat, (cover A)[k]? = some (some p)) :
+    ∃ r, project A fm = .ok r ∧ (cover r).map (readRow A) = cover fm := by
+  obtain ⟨I, hI, hIpl, hIlen, hNN, hconv⟩ := inverse_spec A hA.1 hA.2
+  have hne : I.spans ≠ [] := by
+    intro e
+    have : len I = 0 := by unfold len; rw [e]; rfl
+    omega
+  obtain ⟨r, hr, hrp, hrc⟩ := getitem_spec I fm hNN hne (by
+    intro x hx
+    have := hfm x hx
+    cases x with
+    | lost k => trivial
+    | span s e rv => simp only [FSp.idxIn] at this; simp only [FSp.idxOK]; omega)
+  refine ⟨r, by unfold project; rw [hI]; exact hr, ?_⟩
+  rw [hrc, List.map_map]
+  conv => rhs; rw [← List.map_id (cover fm)]
+  apply List.map_congr_left
+  intro o ho
+  cases o with
+  | none => rfl
+  | some p =>
+    obtain ⟨j, hj, hjj⟩ := List.mem_iff_getElem.mp ho
+    have hj' : (cover fm)[j]? = some (some p) := by rw [List.getElem?_eq_getElem hj, hjj]
+    obtain ⟨k, hk⟩ := hcov j p hj'
+    have hp : 0 ≤ p := chain_pos_ge A.spans 0 hA.1 k p hk
+    have hIk : (cover I)[p.toNat]? = some (some (k : Int)) := by
+      apply (hconv p.toNat (k : Int)).2
+      refine ⟨by omega, ?_⟩
+      rw [show ((k : Int)).toNat = k by omega, hk]
+      congr 2; omega
+    have n1 : ¬ (p < 0) := by omega
+    have n2 : ¬ ((k : Int) < 0) := by omega
+    simp only [Function.comp, compose, lookup, coverAt, n1, if_false, hIk, Option.join_some, readRow, n2, id]
+    rw [show ((k : Int)).toNat = k by omega, hk]; rfl
+
 end CogentModel.FMap
